@@ -208,6 +208,7 @@ def run(ctx, only=None, before=None, ops=None):
         fmembers = feature_members(patches)
         feats = sorted(FeatureName, key=lambda f: f.value)
         obs = []
+        af_obs = []     # what all_features() listed, to be compared with the model's allFeatures
 
         def evaluate(world, sc, holder, extra=None, tag=""):
             """the C13 oracle + observations for the model, in the state the device object is in now"""
@@ -223,6 +224,8 @@ def run(ctx, only=None, before=None, ops=None):
                 try:
                     got = read()
                     ways[way] = {f.name: (got[f].state.name if f in got else "Unsupported") for f in feats}
+                    af_obs.append((dict(base_case, way=way), S, video, 1 if way.endswith("True)") else 0,
+                                   {getattr(k, "name", str(k)): v.state.name for k, v in got.items()}))
                     extra_names = [k for k in got if k not in feats]
                     if extra_names or (way.endswith("True)") and len(got) != len(feats)):
                         ctx.disagree(dict(base_case, way=way), sorted(getattr(k, "name", str(k)) for k in got)[:80],
@@ -306,8 +309,6 @@ def run(ctx, only=None, before=None, ops=None):
                          f"and a connected protocol implements {i}.{m}, but {call} through the device object "
                          f"fails with NotSupportedError")
             obs.append((sc, S, video, holder, reported, backed, amap))
-            for way in list(ways)[:2]:          # all_features must tell what the model's get_feature tells
-                obs.append((dict(sc, way=way), S, video, holder, ways[way], backed, amap))
 
         # -- several devices in one process, in varying order: each evaluated after the others were set up
         built_before = []
@@ -399,8 +400,15 @@ def run(ctx, only=None, before=None, ops=None):
                         proto_lines.append(f"proto {proto} {c0} {c1}")
                         proto_obs.append((proto, video, rich, got))
                         ctx.note("get_feature:%s:%s" % (proto, "rich" if rich else "fresh"))
-        answers = ctx.lean(qs + proto_lines + ["failing"])
-        model_of = dict(zip(qs, answers))
+        aqs = sorted({f"allfeatures {h01.set_bits(S)} {video} {b}" for (_c, S, video, b, _l) in af_obs})
+        answers = ctx.lean(qs + aqs + proto_lines + ["failing"])
+        model_of = dict(zip(qs + aqs, answers))
+        for (case, S, video, b, listed) in af_obs:
+            model = kv(model_of[f"allfeatures {h01.set_bits(S)} {video} {b}"]) if model_of[f"allfeatures {h01.set_bits(S)} {video} {b}"] != "-" else {}
+            if model != listed:
+                diff = {n: (listed.get(n), model.get(n)) for n in set(listed) | set(model) if listed.get(n) != model.get(n)}
+                ctx.disagree(case, {n: v[0] for n, v in diff.items()}, {n: v[1] for n, v in diff.items()}, where="all_features entries")
+            ctx.validated(len(listed))
         for (sc, S, video, holder, reported, backed, amap) in obs:
             case = {"scenario": sc, "holder": holder}
             for what, impl, q in (("features", reported, f"features {h01.set_bits(S)} {video}"),
@@ -410,7 +418,7 @@ def run(ctx, only=None, before=None, ops=None):
                     diff = {n: (impl.get(n), model.get(n)) for n in impl if impl.get(n) != model.get(n)}
                     ctx.disagree(case, {n: v[0] for n, v in diff.items()}, {n: v[1] for n, v in diff.items()}, where=what)
                 ctx.validated(len(impl))
-        for (proto, video, rich, got), ans in zip(proto_obs, answers[len(qs):]):
+        for (proto, video, rich, got), ans in zip(proto_obs, answers[len(qs) + len(aqs):]):
             model = kv(ans)
             if model != got:
                 diff = {n: (got.get(n), model.get(n)) for n in got if got.get(n) != model.get(n)}
